@@ -70,6 +70,24 @@ impl Subpatterns {
                 continue;
             };
 
+            // The source has to be a pattern by itself. Something like `x)|(?:y` only becomes
+            // balanced once it is wrapped, and its alternation would then leak out of the group
+            // that scopes the subpattern.
+            let mut source_errors = Errors::default();
+            let own_source = build
+                .subst_subpatterns(&pattern.escape(false), pattern.span(), &mut source_errors)
+                .unwrap_or_default();
+            if let Err(msg) = Pattern::compile(
+                false,
+                &own_source,
+                pattern.token().to_string(),
+                pattern.unicode(),
+                false,
+            ) {
+                errors.err(msg, pattern.span());
+                continue;
+            }
+
             // Test compile the subpattern for better error messages
             // Compile w/ unicode mode, since the top level flag will set it on or off anyway
             match Pattern::compile(
